@@ -32,7 +32,11 @@ def combine_cases(ctx, vectors1, n, seed, fam="req", mode="random"):
     while len(cases) < n and tries < 40 * n:
         tries += 1
         a = rnd.choice(vectors1)
-        if mode == "sameloc":
+        if mode == "withcookie":     # a path / query / header parameter together with a cookie
+            if a[key][0]["loc"] not in ("path", "query", "header") or "cookie" not in byloc:
+                continue
+            b = rnd.choice(byloc["cookie"])
+        elif mode == "sameloc":
             loc = a[key][0]["loc"]
             if loc in ("body", "path"):
                 continue
@@ -214,7 +218,8 @@ def short_case(c):
 
 # ------------------------------------------------------------------ explaining mismatches by named deviations
 DEVIATIONS = ["param.empty_string_is_absent", "cookie.value_sanitized", "client.path_not_escaped", "mux.double_unescape",
-              "validate.absent_collection_length", "response.header_array_joined", "validate.exclusive_max_unchecked"]
+              "validate.absent_collection_length", "response.header_array_joined", "validate.exclusive_max_unchecked",
+              "decode.required_cookie_drops_param_errors"]
 
 
 def case_key(v):
